@@ -58,14 +58,14 @@ func (s *scripted) Request(req transport.HTTPRequest) (transport.HTTPResponse, e
 
 // a crafted reply: roots + blocks
 type reply struct {
-	Label    string
-	Roots    []ipld.Link
-	Blocks   []ipld.Block
-	Raw      []byte // when set, the body is these bytes
-	Status   int
+	Label  string
+	Roots  []ipld.Link
+	Blocks []ipld.Block
+	Raw    []byte // when set, the body is these bytes
+	Status int
 	// what the harness knows about the message it built (for the model)
-	HasMsg   bool              // the first root is a decodable agent message block that is present
-	Report   [][2]string       // (key string, receipt link string); nil when absent
+	HasMsg   bool        // the first root is a decodable agent message block that is present
+	Report   [][2]string // (key string, receipt link string); nil when absent
 	HasRep   bool
 	Lookups  []ipld.Link
 	RcptInfo map[string]string // receipt link -> "valid" | "missing" | "undecodable"
